@@ -315,7 +315,7 @@ type requester interface {
 	request(path string, arm func()) (outcome string, s *media.Stream, detail string)
 	// verifyWire checks what the requester itself received once the camera has
 	// sent its live frames ("" = fine or not applicable).
-	verifyWire(sentAll, live []fakecam.Frame) string
+	verifyWire(sentAll, live []fakecam.Frame, push func() *fakecam.Frame) string
 	// release ends the requester's own connection to the server.
 	release()
 }
@@ -335,8 +335,10 @@ func (directRequester) request(path string, arm func()) (outcome string, s *medi
 	}
 	return "stream", s, ""
 }
-func (directRequester) verifyWire(sentAll, live []fakecam.Frame) string { return "" }
-func (directRequester) release()                                        {}
+func (directRequester) verifyWire(sentAll, live []fakecam.Frame, push func() *fakecam.Frame) string {
+	return ""
+}
+func (directRequester) release() {}
 
 func framesFor(sc *scenario) []fakecam.Frame {
 	if sc.frames != nil {
@@ -499,7 +501,11 @@ func runScenario(sc *scenario, rq requester) *result {
 		res.failf("socket-leak", "%d socket descriptors are open after the scenario, %d before (the camera has closed all of its own)", socketFDs(), base.fds)
 	}
 	if sc.FollowUp && len(res.failures) == 0 {
-		followUp(res, sc, rq, id, reqPath, canon)
+		frq := requesterFor(sc.Mode)
+		if sc.Mode == "hls" { // a playlist request for a live stream waits seconds for segments
+			frq = requesterFor("rtsp")
+		}
+		followUp(res, sc, frq, id, reqPath, canon)
 	}
 	return res
 }
@@ -621,7 +627,19 @@ func playPhase(res *result, sc *scenario, rq requester, cam *fakecam.Camera, s *
 			}
 			res.delivered += len(got)
 		}
-		if why := rq.verifyWire(sentAll, live); why != "" {
+		pushed := first + len(rawLive)
+		push := func() *fakecam.Frame { // one more frame of the programme (of a track that is set up)
+			for pushed < len(frames) {
+				f := frames[pushed]
+				pushed++
+				cam.Send(-1, 1, 0)
+				if f.Track >= 0 && f.Track < 2 && up[f.Track] {
+					return &f
+				}
+			}
+			return nil
+		}
+		if why := rq.verifyWire(sentAll, live, push); why != "" {
 			res.failf("delivery-wire", "%s", why)
 		}
 		_ = cids
